@@ -2,32 +2,54 @@ use crate::macros::dispatch;
 
 pub use methods::dispatch as pow;
 
+use crate::{CelError, CelResult};
+
+fn exponent<T: TryInto<u32>>(n: T) -> CelResult<u32> {
+    n.try_into()
+        .map_err(|_| CelError::value("pow() exponent out of range for an integer base"))
+}
+
+fn float_exponent(n: f64) -> CelResult<u32> {
+    if n >= 0.0 && n <= u32::MAX as f64 && n.fract() == 0.0 {
+        Ok(n as u32)
+    } else {
+        Err(CelError::value(
+            "pow() exponent out of range for an integer base",
+        ))
+    }
+}
+
+fn overflow() -> CelError {
+    CelError::value("pow() overflow")
+}
+
 #[dispatch]
 mod methods {
-    use crate::CelValue;
+    use super::{exponent, float_exponent, overflow};
+    use crate::{CelResult, CelValue};
 
-    fn pow(n1: i64, n2: i64) -> i64 {
-        n1.pow(n2 as u32)
+    fn pow(n1: i64, n2: i64) -> CelResult<i64> {
+        n1.checked_pow(exponent(n2)?).ok_or_else(overflow)
     }
 
-    fn pow(n1: i64, n2: u64) -> i64 {
-        n1.pow(n2 as u32)
+    fn pow(n1: i64, n2: u64) -> CelResult<i64> {
+        n1.checked_pow(exponent(n2)?).ok_or_else(overflow)
     }
 
-    fn pow(n1: i64, n2: f64) -> i64 {
-        n1.pow(n2 as u32)
+    fn pow(n1: i64, n2: f64) -> CelResult<i64> {
+        n1.checked_pow(float_exponent(n2)?).ok_or_else(overflow)
     }
 
-    fn pow(n1: u64, n2: i64) -> u64 {
-        n1.pow(n2 as u32)
+    fn pow(n1: u64, n2: i64) -> CelResult<u64> {
+        n1.checked_pow(exponent(n2)?).ok_or_else(overflow)
     }
 
-    fn pow(n1: u64, n2: u64) -> u64 {
-        n1.pow(n2 as u32)
+    fn pow(n1: u64, n2: u64) -> CelResult<u64> {
+        n1.checked_pow(exponent(n2)?).ok_or_else(overflow)
     }
 
-    fn pow(n1: u64, n2: f64) -> u64 {
-        n1.pow(n2 as u32)
+    fn pow(n1: u64, n2: f64) -> CelResult<u64> {
+        n1.checked_pow(float_exponent(n2)?).ok_or_else(overflow)
     }
 
     fn pow(n1: f64, n2: i64) -> f64 {
